@@ -413,6 +413,8 @@ pub fn run(rep: &mut Report, thorough: bool) {
                 let body = [(d[0] >> 8) as u8, d[0] as u8, 0, 1, b'x', b'y'];
                 if d[1] == 0 { flow4(1, 1).ip_frame(P_ICMP, &icmp4(0, 0, &body)) } else { flow6(1, 1).ip_frame(P_ICMP6, &icmp6(&cli6(), &srv6(), 129, 0, &body)) }
             });
+        }
+        {
             // RPC replies over TCP on a validated flow
             let t0 = std::time::Instant::now();
             let f = flow4(40000, 80);
@@ -421,25 +423,39 @@ pub fn run(rep: &mut Report, thorough: bool) {
             let cfgc = cfg.clone();
             engine::run(
                 &cfg,
-                255,
+                255 * 3,
                 &opts,
                 |i| {
                     let mut b = Vec::new();
-                    for w in [0x72fe1d13u32, (i + 1) as u32, 0, 0, 0, 0, 0, 0, 0, 0] {
+                    // three shapes: an accepted-reply body; a message that is a well-formed portmapper
+                    // CALL in every word but the message type (GETPORT v2 / DUMP v4)
+                    let t = (i % 255 + 1) as u32;
+                    let words: [u32; 10] = match i / 255 {
+                        0 => [0x72fe1d13, t, 0, 0, 0, 0, 0, 0, 0, 0],
+                        1 => [0x72fe1d13, t, 2, 100000, 2, 3, 0, 0, 0, 0],
+                        _ => [0x72fe1d13, t, 2, 100000, 4, 4, 0, 0, 0, 0],
+                    };
+                    for w in words {
                         b.extend_from_slice(&w.to_be_bytes());
                     }
-                    vec![Cmd::Frame(f.tcp(1000, c, F_PSH | F_ACK, &apprpc::with_record_mark(&b)))]
+                    // the same reply-typed record three times on the connection (a resumable parser must
+                    // not take the second one for the rest of a call)
+                    let m = apprpc::with_record_mark(&b);
+                    (0..3u32).map(|k| Cmd::Frame(f.tcp(1000 + k * m.len() as u32, c, F_PSH | F_ACK, &m))).collect()
                 },
                 |it: &Item, sk: &mut Sink| {
-                    sk.count("frames", 1);
-                    let data = it.outs[1].reply.as_deref().and_then(crate::mask::app_payload).map(|(_, p)| p).unwrap_or_default();
-                    if !data.is_empty() {
-                        sk.violation(Violation { prop: "C12".into(), key: "reply-typed-answered:rpc-tcp".into(), what: format!("RPC message of type {} over TCP answered with {}", it.idx + 1, hex(&data)), cfg: cfgc.clone(), cmds: it.cmds.to_vec(), idx: it.idx, stage: "rpc-msgtype-tcp".into() });
+                    sk.count("frames", 3);
+                    for k in 0..3 {
+                        let data = it.outs[1 + k].reply.as_deref().and_then(crate::mask::app_payload).map(|(_, p)| p).unwrap_or_default();
+                        if !data.is_empty() {
+                            sk.violation(Violation { prop: "C12".into(), key: "reply-typed-answered:rpc-tcp".into(), what: format!("RPC message of type {} (shape {}) over TCP (message {} of the connection) answered with {}", it.idx % 255 + 1, it.idx / 255, k + 1, hex(&data)), cfg: cfgc.clone(), cmds: it.cmds[..=1 + k].to_vec(), idx: it.idx, stage: "rpc-msgtype-tcp".into() });
+                            break;
+                        }
                     }
                 },
                 &mut rep.sink,
             );
-            rep.stage(&format!("rpc-msgtype-tcp-{}", tag), "ONC-RPC message type 1..255 over TCP behind a valid cookie", 255, t0);
+            rep.stage(&format!("rpc-msgtype-tcp-{}", tag), "ONC-RPC message type 1..255 x {reply body, GETPORT call words, DUMP call words} over TCP behind a valid cookie, the same record three times on the connection", 255 * 3, t0);
         }
     }
     rep.states = rep.sink.classes.len() as u64;
